@@ -11,6 +11,6 @@ CONSTANTS
   MAXFULL = {0, 500}
   SOLVER = {1}
   SCALES = {"unit", "small"}
-  SYSCLS = {"spd", "diagdom", "laplace"}
+  SYSCLS = {"spd", "diagdom", "laplace", "diagvar"}
 INVARIANT WellTyped
 CHECK_DEADLOCK FALSE
